@@ -52,7 +52,7 @@ static inline void puthex(FILE* f, const char* b, int n)
 
 /* silence kalign's stderr/stdout chatter around a call */
 static int kv_saved_err = -1;
-static inline void quiet_on(void){ fflush(stderr); kv_saved_err = dup(2); int n = open("/dev/null", 1); dup2(n,2); close(n); }
-static inline void quiet_off(void){ fflush(stderr); if(kv_saved_err >= 0){ dup2(kv_saved_err,2); close(kv_saved_err); kv_saved_err = -1; } }
+static inline void quiet_on(void){ }
+static inline void quiet_off(void){ fflush(stdout); }
 
 #endif
